@@ -270,6 +270,34 @@ fn kdf_case(rev: u32, ks: usize) {
         bits: (key_size * 8) as u32, crypt_filters: HashMap::new(), default_crypt_filter: None, encrypt_metadata: true,
         oe: None, ue: None, _other: Dictionary::new(),
     };
+    #[cfg(verif_replay)]
+    {
+        // native oracle (no stubs): derive the file key with the real md5 crate as Algorithm 2 prescribes, build the /U entry
+        // that belongs to it (Algorithm 4 / 5) and require that the real from_password accepts the password with that key
+        let n = if plen < 32 { plen } else { 32 };
+        let mut m = pass[..n].to_vec(); m.extend_from_slice(&PADDING[..32 - n]);
+        m.extend_from_slice(&o); m.extend_from_slice(&p.to_le_bytes()); m.extend_from_slice(&id);
+        let mut dg = md5::compute(&m).0;
+        if rev >= 3 { for _ in 0..50 { dg = md5::compute(&dg[..key_size]).0; } }
+        let key = &dg[..key_size];
+        let mut u = [0u8; 32];
+        if rev == 2 { u = PADDING; rc4_ref(key, &mut u); }
+        else {
+            let mut h = PADDING.to_vec(); h.extend_from_slice(&id);
+            let mut d = md5::compute(&h).0;
+            rc4_ref(key, &mut d);
+            for i in 1u8..=19 { let k: Vec<u8> = key.iter().map(|b| b ^ i).collect(); rc4_ref(&k, &mut d); }
+            u[..16].copy_from_slice(&d);
+        }
+        let dict = CryptDict {
+            o: PdfString::new(o[..].into()), u: PdfString::new(u[..].into()), r: rev, p, v: if rev == 2 { 1 } else { 2 },
+            bits: (key_size * 8) as u32, crypt_filters: HashMap::new(), default_crypt_filter: None, encrypt_metadata: true,
+            oe: None, ue: None, _other: Dictionary::new(),
+        };
+        let r = Decoder::from_password(&dict, &id, &pass[..plen]);
+        assert!(matches!(&r, Ok(d) if d.key[..key_size] == key[..]));
+        return;
+    }
     unsafe { RND_LEN = key_size; }
     let r = Decoder::from_password(&dict, &id, &pass[..plen]);
     let ok = match &r {
